@@ -151,6 +151,7 @@ func (w *World) exec(cs *clientState, idx int, op Op) *Rec {
 	w.Recs = append(w.Recs, r)
 	s.Yield("client.invoke")
 	r.Inv = s.StepNo()
+	r.InvMs = s.SimTime().Milliseconds()
 	r.ComInv = b.GetCurrentRevision()
 	ctx := context.Background()
 	w.inflight[task] = r
@@ -159,6 +160,7 @@ func (w *World) exec(cs *clientState, idx int, op Op) *Rec {
 		delete(w.inflight, task)
 		cs.busyNode = -1
 		r.Ret = s.StepNo()
+		r.RetMs = s.SimTime().Milliseconds()
 		r.ComRet = b.GetCurrentRevision()
 		r.Done = true
 		w.doneRecs++
